@@ -60,16 +60,20 @@ CFG = {
     ],
     "thorough": [
         K(1, ""), K(1, "ss"), K(2, "st", stop=True), K(1, "s", "s"), K(1, "s", "t", own=True),
-        K(1, "sc", "s", own=True), K(3, "mt"), K(1, "m", nodrop=(1,), stop=True), K(1, "s", "s", nodrop=(1,), stop=True),
+        K(1, "cs", "s", own=True), K(1, "sc", "s", own=True), K(3, "mt"), K(1, "m", nodrop=(1,), stop=True),
+        K(1, "s", "s", nodrop=(1,), stop=True),
         K(2, "m", "s", nodrop=(1,), stop=True),
         K(1, "ss", chan=True), K(1, "s", "t", chan=True), K(2, "st", chan=True, cmax=1),
         K(2, "ss", "st", chan=True), K(1, "sst", "s", chan=True, cmax=2),
-        K(2, "ss", "ss"),                           # the design-phase calibration configuration
-        K(1, "m", "t", stop=True),
-        K(3, "sss", "s", own=True),
-        K(2, "st", "cs", own=True, stop=True),
-        K(1, "s", "s", "s"),
+        K(2, "ss", "ss"),                           # the design-phase calibration configuration (576 k edges)
+        K(1, "s", "s", "s"),                        # three producer threads (544 k edges)
         K(2, "ms", "t", nodrop=(2,)),
+        K(3, "sss", "t", own=True),                 # four samples through a capacity-3 ring
+    ],
+    # model-checked only (safety + liveness), too large to replay edge by edge within the thorough budget
+    "thorough_mc_only": [
+        K(1, "m", "t", stop=True), K(3, "sss", "s", own=True), K(2, "st", "cs", own=True, stop=True),
+        K(2, "sm", "ts", nodrop=(1,), stop=True), K(3, "ssss", "ss"),
     ],
 }
 
@@ -188,19 +192,27 @@ def read_edges(path):
             yield line[5:cut], line[cut + 5:cut2], int(line[cut2 + 5:-1])
 
 
+XF = ("lbl", "head", "tail", "closed", "ended", "active", "poplocked", "plocked", "woken", "live", "ret", "got", "win")
+
+
 def build_plan(edges_path, plan_path, k, sim_path=None):
     """Read TLC's edge list, build the state graph and cover every edge with complete behaviours; add the
     behaviours TLC's simulation mode walked (G-sim: the same edges reached through other, unmerged histories)."""
     ids = {}
     src, dst, who, xs = [], [], [], []
     cap = k["cap"]
+    # memory: states are keyed by a 12-byte digest of their identifier, expectations kept as tuples
+    def key(s):
+        return hashlib.blake2b(s.encode(), digest_size=12).digest()
+
     for fs, ts, p in read_edges(edges_path):
-        u = ids.setdefault(fs, len(ids))
-        v = ids.setdefault(ts, len(ids))
+        u = ids.setdefault(key(fs), len(ids))
+        v = ids.setdefault(key(ts), len(ids))
         src.append(u)
         dst.append(v)
         who.append(p)
-        xs.append(expect(json.loads(fs), json.loads(ts), p, cap, k))
+        x = expect(json.loads(fs), json.loads(ts), p, cap, k)
+        xs.append(tuple(x.get(f) for f in XF))
     n, m = len(ids), len(src)
     out = [[] for _ in range(n)]
     inn = [[] for _ in range(n)]
@@ -337,7 +349,7 @@ def build_plan(edges_path, plan_path, k, sim_path=None):
                 walk.append(pick)
 
         for fs, ts, p in read_edges(sim_path):
-            u = ids.get(fs)
+            u = ids.get(key(fs))
             if u is None or (u, p) not in eidx:
                 raise vlib.ToolError("simulation visited a state / edge outside the exhaustive graph")
             if u != gf:
@@ -350,12 +362,13 @@ def build_plan(edges_path, plan_path, k, sim_path=None):
     with open(plan_path, "w") as fh:
         fh.write(json.dumps(harness_cfg(k)) + "\n")
         for e in range(m):
-            fh.write(json.dumps({"type": "edge", "i": e, "p": who[e], "x": xs[e]}, separators=(",", ":")) + "\n")
+            x = {f: v for f, v in zip(XF, xs[e]) if v is not None}
+            fh.write(json.dumps({"type": "edge", "i": e, "p": who[e], "x": x}, separators=(",", ":")) + "\n")
         for i, p in enumerate(paths):
             fh.write(json.dumps({"type": "path", "id": i, "steps": p}, separators=(",", ":")) + "\n")
     nontrivial = sum(1 for e in range(m) if who[e] != 0)
     return {"states": n, "edges": m, "paths": len(paths), "steps": sum(len(p) for p in paths), "cover_paths": ncover,
-            "sim_paths": len(paths) - ncover, "thread_steps": nontrivial, "sample": [[who[e], xs[e]["lbl"]] for e in paths[len(paths) // 2]]}
+            "sim_paths": len(paths) - ncover, "thread_steps": nontrivial, "sample": [[who[e], xs[e][0]] for e in paths[len(paths) // 2]]}
 
 
 # --------------------------------------------------------------------------- running things
@@ -470,9 +483,19 @@ def model_and_replay(ck, k, tier, shards):
     write_cfg(cfg, k, emit=True, invariants=SAFETY + " " + SAFETY_EXT)
     edges = os.path.join(ck.dir, f"edges_{lab}.ndjson")
     res = vlib.tlc("MC_Ring", os.path.basename(cfg), timeout=3000 if tier == "thorough" else 900, tags=("EDGE",),
-                   sinks={"EDGE": edges}, tag=f"MC_Ring_{lab}", heap="4g")
+                   sinks={"EDGE": edges}, tag=f"MC_Ring_{lab}", heap="2g")
     os.remove(cfg)
     return lab, res, edges
+
+
+def mc_only(k):
+    """safety invariants on a configuration that is too large to replay (several TLC workers, no emission)"""
+    lab = label_of(k)
+    cfg = os.path.join(vlib.SPEC, f"MC_Ring_mc_{lab}.{os.getpid()}.gen.cfg")
+    write_cfg(cfg, k, emit=False, invariants=SAFETY + " " + SAFETY_EXT)
+    res = vlib.tlc("MC_Ring", os.path.basename(cfg), workers=4, timeout=3000, tag=f"MC_Ring_mc_{lab}", heap="3g")
+    os.remove(cfg)
+    return lab, res
 
 
 def liveness(k, tier):
@@ -481,7 +504,7 @@ def liveness(k, tier):
     props = "Terminates" if k.get("cmax") else LIVENESS + ("" if k.get("chan") else " " + LIVENESS_EXT)
     write_cfg(cfg, k, emit=False, invariants="", properties=props)
     res = vlib.tlc("MC_Ring", os.path.basename(cfg), workers=2, timeout=3000 if tier == "thorough" else 900,
-                   tag=f"MC_Ring_live_{lab}", heap="4g")
+                   tag=f"MC_Ring_live_{lab}", heap="2g")
     os.remove(cfg)
     return lab, res
 
@@ -526,7 +549,7 @@ def stress_chunk(ck, i, scen):
     rej = os.path.join(ck.dir, f"stress_rej_{i}.ndjson")
     res = vlib.tlc("Trace_Ring", "Trace_Ring.cfg", timeout=1500, tags=("REJECTED",), sinks={"REJECTED": rej},
                    env={"TRACE": tp, "JAVA_TOOL_OPTIONS": "-Dtlc2.tool.queue.IStateQueue=StateDeque"},
-                   tag=f"Trace_Ring_{i}", heap="4g")
+                   tag=f"Trace_Ring_{i}", heap="2g")
     rejected = vlib.read_ndjson(rej)
     os.remove(rej)
     os.remove(tp)
@@ -597,12 +620,18 @@ def one_config(ck, k, tier, shards):
     plan = os.path.join(ck.dir, f"plan_{lab}.ndjson")
     st = build_plan(edges, plan, k, sim)
     os.remove(sim)
+    del_edges = os.path.getsize(edges)
+    os.remove(edges)
     t2 = time.time()
-    rows = run_harness(plan, os.path.join(ck.dir, f"replay_{lab}"), shards)
+    # one configuration's shards at a time (memory / CPU): cross-process lock
+    import fcntl
+    with open(os.path.join(ck.dir, "replay.lock"), "w") as lk:
+        fcntl.flock(lk, fcntl.LOCK_EX)
+        t2 = time.time()
+        rows = run_harness(plan, os.path.join(ck.dir, f"replay_{lab}"), shards)
     vlib.log(f"[C20] {lab}: {st['states']} states {st['edges']} edges -> {st['cover_paths']}+{st['sim_paths']} schedules / {st['steps']} steps; "
              f"tlc {t1 - t0:.0f}s plan {t2 - t1:.0f}s replay {time.time() - t2:.0f}s")
     os.remove(plan)
-    os.remove(edges)
     return dict(k=k, lab=lab, res=res, st=st, rows=rows)
 
 
@@ -616,14 +645,19 @@ def run(tier):
     live_cfgs = [k for k in cfgs if (len(k["p1"]) + len(k["p2"]) + len(k["p3"]) <= 3) or tier == "thorough"]
     # biggest configurations first; everything (TLC safety+edges -> replay, TLC liveness, probes) shares one pool
     # configurations run in worker processes (building the schedules is CPU-bound Python), the rest in threads
-    with cf.ThreadPoolExecutor(max_workers=4) as ex, cf.ProcessPoolExecutor(max_workers=4 if tier == "quick" else 5) as px:
+    with cf.ThreadPoolExecutor(max_workers=4) as ex, cf.ProcessPoolExecutor(max_workers=4 if tier == "quick" else 3) as px:
         order = sorted(cfgs, key=lambda k: -(len(k["p1"]) + len(k["p2"]) + len(k["p3"]) + (2 if k["stop"] else 0)))
         futs = {label_of(k): px.submit(one_config, DirOnly(ck.dir), k, tier, shards) for k in order}
         pfuts = [(dev, k, inv, name, ex.submit(probe_witness, ck, dev, k, inv, name)) for dev, k, inv, name in PROBES]
         lfuts = [ex.submit(liveness, k, tier) for k in live_cfgs]
         sfut = ex.submit(stress, ck, tier)
+        mfuts = [ex.submit(mc_only, k) for k in CFG.get(tier + "_mc_only", [])]
         done = [futs[label_of(k)].result() for k in cfgs]
         st_out = sfut.result()
+        for f in mfuts:
+            lab, res = f.result()
+            vlib.tlc_ok(res, "model only " + lab)
+            ck.add_tlc(res, "safety (model only) " + lab)
         lv = [f.result() for f in lfuts]
         pw = [(dev, k, inv, name) + f.result() for dev, k, inv, name, f in pfuts]
     vlib.log(f"[C20] TLC + replay done in {time.time() - t0:.0f}s")
@@ -727,11 +761,18 @@ def replay(path):
         fh.write(json.dumps(cfg) + "\n")
         fh.write(json.dumps({"type": "sched", "id": "replay", "steps": sched}) + "\n")
     rows = run_harness(plan, os.path.join(ck.dir, "replay_one"), 1)
+    names = {"NoSlotRace": "race", "MemSafe": "overwrite", "NoLostWakeup": "lostwakeup", "DrainThenEos": "earlyeos",
+             "NoLostWakeupStop": "lostwakeup_stop"}
     for r in rows:
         if r.get("type") == "witness":
             print(json.dumps(r, indent=1))
-            if r.get("race"):
-                ck.divergence({"sub": "ring", "rule": r["race"][0]["rule"], "kind": "witness"}, r)
+            bad, rule, what = classify_witness(names.get(rec.get("rule"), ""), r)
+            if bad:
+                ck.divergence({"sub": "ring", "rule": rule, "kind": "witness"}, dict(rec, what=what, observed=r))
+            elif r.get("race"):
+                ck.divergence({"sub": "ring", "rule": r["race"][0]["rule"], "kind": "witness"}, dict(rec, observed=r))
+            else:
+                print(f"not reproduced: followed {r['followed']}/{r['of']} steps; {r['stopped']}")
     ck.cov.update(states=1, transitions=len(sched), traces_validated_against_impl=1, samples=[sched])
     ck.finish()
 
